@@ -147,7 +147,7 @@ theorem runFunc_frame (env : Env) (v : Verdicts) (f : Gen.Func) (s : Sess) (l : 
     simp only [runFunc, smtpData]; split
     · exact frame_same _ _ _ _ _ ⟨rfl, rfl, rfl, rfl⟩
     · split
-      · exact frame_same _ _ _ _ _ ⟨rfl, rfl, rfl, rfl⟩
+      · exact frame_freed _ _ _ _ _ ⟨rfl, rfl, rfl, rfl⟩
       · exact frame_freed _ _ _ _ _ ⟨rfl, rfl, rfl, rfl⟩
       · exact frame_freed _ _ _ _ _ ⟨rfl, rfl, rfl, rfl⟩
   | auth =>
